@@ -16,3 +16,7 @@ def run(ctx):
     engine_common.run_engine(ctx, ["C04:"], n_quick=3000, n_thorough=60000)
     ctx.cov["rule"] = ("seeded sequences with queue-heavy profile (exclusive locks, long waits, mixed priorities); monitor: at every quiescent moment the head live waiter "
                        "of every key is not admissible, classified by what made it admissible; distinct_nontrivial = distinct sequences containing at least one grant")
+
+
+def replay(path):
+    return engine_common.replay_engine("C04", path)
